@@ -564,6 +564,22 @@ def run_arbitrary(res, drv, chunks, script):
                     res.violation('C07', 'reject-asap', 'complete header ml=%d op=%d buffered without rejection' % (ml, op), script)
                     return
         else:
+            # a rejection is final: draining AGAIN - with no new bytes, then with whatever arrives next - must raise
+            # the same protocol exception again, yield nothing and buffer nothing beyond what was fed
+            k_ = chunks.index(ch) if ch in chunks else len(chunks)
+            more = [b''] + [c for c in chunks[len(impl_lines):len(impl_lines) + 2]] + [b'\x00' * 7]
+            for extra in more:
+                fr2, rest2, err2 = impl_feed(u, extra)
+                total += extra
+                impl_lines.append(fmt_feed(fr2, rest2, err2))
+                lines.append('c.feed ' + hexin(extra))
+                res.note('arbitrary.again.' + err2)
+                if err2 == 'NONTERMINATION':
+                    res.violation('C07', 'termination', 'iteration after a rejection does not terminate', script)
+                    return
+                if fr2 or err2 != err:
+                    res.violation('C07', 'reject-sticky', 'after rejecting a header with %s, draining again gave %d frame(s) and %s: the rejected header was accepted the second time' % (err, len(fr2), err2), script)
+                    return
             break
     if drv is not None:
         outs = drv.ask_many(lines[:len(impl_lines) + 1])[1:]
